@@ -368,7 +368,7 @@ static void gen_files(files *F, int newpool) {
         case 2: case 3: snprintf(key, sizeof key, "%s", d); break;                              /* domain */
         case 4: case 5: { const char *dot = strchr(d, '.'); snprintf(key, sizeof key, "%s", dot ? dot : ".a"); break; } /* wildcard */
         case 6: snprintf(key, sizeof key, ".%s", d); break;                                     /* wildcard one level up */
-        case 7: key[0] = 0; break;                                                              /* catch-all */
+        case 7: if (h_below(4) == 0) snprintf(key, sizeof key, ".%s@%s", users[h_below(7)], d); else key[0] = 0; break;   /* catch-all / dot-user */
         default: snprintf(key, sizeof key, ".%s", labels[h_below(4)]); break;
       }
       randcase(key, 15);
@@ -429,7 +429,7 @@ static const char *fixed_cfg[3][NF] = {
   /* me, envnoathost, locals, percenthack, virtualdomains */
   { "a\n", "u.a\n", "a\nA.u\n", "a\nu.a\nu\n", "u@u:t\nu:v\n.u:w\n.a.u:\nu@u.u:\n" },
   { 0, "a\n", "u\n", "a\n", "a:x\n:c\n.a:\nu@a.a:y\n" },
-  { "u\n", 0, 0, "u\na.a\n", "u@a:p\n.a:q\nu.a:\n" },
+  { "u\n", 0, 0, "u\na.a\n", "u@a:p\n.a:q\nu.a:\n.u@a:z\n" },
 };
 
 static void load_fixed(files *F, int c) {
